@@ -102,6 +102,34 @@ KEY_FAST = 'update_batch_fast: a non-owner who sends an existing update token wi
 KEY_CREATE = 'create_update: a non-owner who sends an existing update token gets 2xx with the update ids instead of an error'
 
 
+def make_keyed_file_store(base):
+    """the batch file store (job specs, status, logs, profiles), keyed by (batch, job, attempt): every read records the key that was
+    asked for and answers content that names that key"""
+
+    class KeyedFileStore(base):
+        def __init__(self):
+            super().__init__()
+            self.asked = []
+
+        async def read_status_file(self, batch_id, job_id, attempt_id):
+            self.asked.append(('status', batch_id, job_id, attempt_id))
+            return json.dumps({'marker': f'status-b{batch_id}-j{job_id}-{attempt_id}', 'container_statuses': {}, 'state': 'succeeded'})
+
+        async def read_log_file(self, format_version, batch_id, job_id, attempt_id, task):
+            self.asked.append(('log', batch_id, job_id, attempt_id))
+            return f'log-b{batch_id}-j{job_id}-{attempt_id}-{task}'.encode()
+
+        async def read_jvm_profile(self, format_version, batch_id, job_id, attempt_id, task):
+            self.asked.append(('jvm_profile', batch_id, job_id, attempt_id))
+            return f'profile-b{batch_id}-j{job_id}-{attempt_id}'.encode()
+
+        async def read_resource_usage_file(self, format_version, batch_id, job_id, attempt_id, task):
+            self.asked.append(('resource_usage', batch_id, job_id, attempt_id))
+            raise FileNotFoundError(f'resource usage b{batch_id} j{job_id}')
+
+    return KeyedFileStore
+
+
 class C14(Prop):
     id = 'C14'
     title = 'Batch API access control'
@@ -131,7 +159,10 @@ class C14(Prop):
                   'row must belong to the requested batch / to a billing project of the caller (listed_jobs_belong_to_batch for the model of '
                   'the WHERE clause). The billing read routes (billing project list / single project API, the billing projects, billing '
                   'usage and billing limits pages) run with their real bodies for members, non-members, developers, the auth service and '
-                  'other service accounts; every billing project / usage row in the answer must be one the caller may read.')
+                  'other service accounts; every billing project / usage row in the answer must be one the caller may read. EVERY GET route of '
+                  'the generated table that names a batch (job, attempts, logs, resource usage, jvm profile, job groups, batch, UI pages) runs '
+                  'with its real body over two tenants\' data with colliding job / attempt / job-group ids and a file store keyed by (batch, job, '
+                  'attempt): every item returned and every file-store key asked for must belong to the requested batch.')
     level_note = ('PARTIAL for the owner-only mutators: `mutate` is a hand model of which check comes first, tied to the real handlers only by '
                   'the 39 scenario runs over minisql (MySQL itself is not available; the deprecated close_batch answers 500 to every caller on the current schema — Unknown column job_groups.deleted — so its owner case is not run). The decorator semantics (`guard`) are tied by exhaustive '
                   'differential runs (68 routes x 256 callers, plus name-sake variants and billing-administration requests with real bodies + DB diff) with the session lookup stubbed at Authenticator._fetch_userdata and aiohttp '
@@ -166,6 +197,8 @@ class C14(Prop):
 
     # ---- real code ----------------------------------------------------------------------------------------------------------
     def setup(self, repo):
+        import logging
+        logging.disable(logging.CRITICAL)       # the handlers log expected misses (e.g. no resource usage file) with tracebacks
         loader.install(repo)
         svcenv.prepare()
         from ..minisql.env import set_batch_env
@@ -260,6 +293,7 @@ class C14(Prop):
         app = self.web.Application()
         for k, v in bapp.items():
             app[k] = v
+        app['file_store'] = make_keyed_file_store(type(bapp['file_store']))()
         self.app = app
         bps = {'bp_alice_1': ['alice', 'bob'], 'bp_alice_2': ['alice'], 'bp_auth_1': ['auth', 'bob'], 'bp_auth_2': ['auth'],
                'bp_x': ['bob'], 'bp_carol': ['carol'], 'bp_dave': ['dave']}
@@ -282,6 +316,7 @@ class C14(Prop):
         # batches for the owner-only mutators (owner alice, project-mate bob)
         self.A1 = await mk('alice', 'bp_alice_1')
         self.A2 = await mk('alice', 'bp_alice_1')
+        self.R = await mk('alice', 'bp_alice_1')        # alice's batch that the data-level read cases ask for
         self.passthrough = True
         st = await self._call('POST', MUTATORS['create_update'][2], {'batch_id': self.A1}, self.ud('alice'),
                               {'token': 'TOK', 'n_jobs': 1, 'n_job_groups': 0})
@@ -303,19 +338,29 @@ class C14(Prop):
         self.D = self.batch_for[(False, False, False)]       # bob's batch in bp_x (alice is not a member)
 
         async def fast(bid, user, tok, n):
-            body = {'update': {'token': tok, 'n_jobs': n, 'n_job_groups': 0},
-                    'bunch': [self.batchapp.job_spec(i, attributes={'name': f'j{i}'} if i % 2 else None) for i in range(1, n + 1)], 'job_groups': []}
+            body = {'update': {'token': tok, 'n_jobs': n, 'n_job_groups': 1},
+                    'bunch': [self.batchapp.job_spec(i, attributes={'name': f'j{i}'} if i % 2 else None) for i in range(1, n + 1)],
+                    'job_groups': [{'job_group_id': 1, 'absolute_parent_id': 0, 'attributes': {'name': f'g-b{bid}'}}]}
             st = await self._call('POST', MUTATORS['update_batch_fast'][2], {'batch_id': bid}, self.ud(user), body)
             if st[0] != 200:
                 raise MachineryError(f'scenario: {user} could not submit jobs to batch {bid}: {st}')
         db.restore(self.snap_open)
-        await fast(self.A2, 'alice', 'TA', 5)
+        await fast(self.R, 'alice', 'TA', 5)
         await fast(self.D, 'bob', 'TB', 6)
-        for bid, states in ((self.A2, ['Success', 'Failed', 'Running', 'Ready', 'Cancelled']),
+        for bid, states in ((self.R, ['Success', 'Failed', 'Running', 'Ready', 'Cancelled']),
                             (self.D, ['Success', 'Failed', 'Error', 'Running', 'Cancelled', 'Creating'])):
             for i, stt in enumerate(states, 1):
                 db.execute('UPDATE jobs SET state = %s WHERE batch_id = %s AND job_id = %s', (stt, bid, i))
-        db.execute('UPDATE batches SET time_completed = 1 WHERE id IN (%s, %s)', (self.A2, self.D))
+        db.execute('UPDATE batches SET time_completed = 1 WHERE id IN (%s, %s)', (self.R, self.D))
+        # attempts with COLLIDING ids in both tenants' batches (same job ids, same attempt ids); only the instance name and the times
+        # tell them apart
+        for bid in (self.R, self.D):
+            rows = [dict(batch_id=bid, job_id=j, attempt_id='aaaaaa', instance_name=f'inst-b{bid}-j{j}', start_time=1000 * bid + j,
+                         end_time=1000 * bid + j + 50, reason=None, rollup_time=1000 * bid + j + 50) for j in (1, 2, 3)]
+            rows.append(dict(batch_id=bid, job_id=1, attempt_id='bbbbbb', instance_name=f'inst-b{bid}-j1x', start_time=1000 * bid + 100,
+                             end_time=None, reason=None, rollup_time=None))
+            db.load_rows('attempts', rows)
+            db.execute("UPDATE jobs SET attempt_id = 'aaaaaa' WHERE batch_id = %s AND job_id <= 3", (bid,))
         import datetime as _dt
         today = _dt.date.today()
         usage = [('bp_alice_1', 'alice', 5_000_000), ('bp_alice_1', 'bob', 1_000_000), ('bp_x', 'bob', 7_000_000), ('bp_carol', 'carol', 2_000_000)]
@@ -325,9 +370,9 @@ class C14(Prop):
                      [dict(billing_date=today, billing_project=b, user=u, resource_id=1, token=0, usage=n) for b, u, n in usage])
         self.snap_data = db.snapshot()
         # minisql must give AND precedence over OR (unit test of the interpreter on the shape the query builders produce)
-        rows = db.query("SELECT batch_id, job_id FROM jobs WHERE batch_id = %s AND (jobs.state = %s) OR (jobs.state = %s)", (self.A2, 'Success', 'Failed'))
+        rows = db.query("SELECT batch_id, job_id FROM jobs WHERE batch_id = %s AND (jobs.state = %s) OR (jobs.state = %s)", (self.R, 'Success', 'Failed'))
         got = sorted((r['batch_id'], r['job_id']) for r in rows)
-        if got != sorted([(self.A2, 1), (self.A2, 2), (self.D, 2)]):
+        if got != sorted([(self.R, 1), (self.R, 2), (self.D, 2)]):
             raise MachineryError(f'minisql does not parse `a AND b OR c` as `(a AND b) OR c`: {got}')
         db.restore(self.snap_full)
         self.passthrough = False
@@ -373,6 +418,14 @@ class C14(Prop):
                 yield {'kind': 'admin', 'route': key, 'who': who}
         for _ in range(400 if tier == 'quick' else 6000):
             yield {'kind': 'session', 'events': self.gen_schedule(rng)}
+        # every GET route of the generated table that names a batch: each item it returns must belong to that batch
+        for r in self.table:
+            if r['method'] == 'get' and '{batch_id}' in r['path']:
+                params = re.findall(r'\{(\w+)\}', r['path'])
+                for who in ('alice', 'bob'):
+                    for job_id in ((1, 2, 3) if 'job_id' in params else (None,)):
+                        for group in ((0, 1) if 'job_group_id' in params else (None,)):
+                            yield {'kind': 'item', 'route': r['path'], 'who': who, 'job_id': job_id, 'job_group_id': group}
         for route in BILLING_READS:
             for who in BILLING_WHO:
                 yield {'kind': 'billing', 'route': route, 'who': who}
@@ -466,7 +519,7 @@ class C14(Prop):
             return ['adm %d %d' % (c['who'] == 'developer', c['who'] == 'auth')]
         if c['kind'] == 'session':
             return ['sess %d %s' % (TTL_MS, ' '.join(c['events']))]
-        if c['kind'] in ('data', 'billing'):
+        if c['kind'] in ('data', 'billing', 'item'):
             return ['rows']
         if c['kind'] == 'list':
             return ['list %d %d' % (c['who'] in ('owner', 'mate'), c['who'] == 'namesake')]
@@ -678,7 +731,7 @@ class C14(Prop):
         path_t = DATA_ROUTES[c['route']]
         who = c['who']
         # alice reads her batch A2; bob (project-mate in bp_alice_1) reads A2 too; carol / dave are not admitted anywhere relevant
-        bid = self.A2
+        bid = self.R
         match = {}
         if '{batch_id}' in path_t:
             match['batch_id'] = bid
@@ -702,6 +755,49 @@ class C14(Prop):
                 res = (500, {'error': f'{type(e).__name__}: {e}'})
         finally:
             self.passthrough = False
+        self._cache[k] = res
+        return res
+
+    def _item(self, c):
+        """a batch-scoped read route with its real body: (status, response text, file-store keys asked, foreign things found)"""
+        k = json.dumps(c, sort_keys=True)
+        if k in self._cache:
+            return self._cache[k]
+        path_t = c['route']
+        match = {}
+        for p_ in re.findall(r'\{(\w+)\}', path_t):
+            match[p_] = {'batch_id': self.R, 'job_id': c.get('job_id'), 'job_group_id': c.get('job_group_id'), 'container': 'main'}.get(p_, '1')
+        path = path_t
+        for kk, v in match.items():
+            path = path.replace('{%s}' % kk, str(v))
+        self.db.restore(self.snap_data)
+        fs = self.app['file_store']
+        n0 = len(fs.asked)
+        self.passthrough = True
+        try:
+            req = self.mk('GET', path, match_info={kk: str(v) for kk, v in match.items()}, app=self.app)
+            self.cur_userdata = self.ud(c['who'])
+            try:
+                resp = self.loop.run_until_complete(self.real[('GET', path_t)].handler(req))
+                body = getattr(resp, 'body', None)
+                text = body.decode('utf-8', 'replace') if isinstance(body, (bytes, bytearray)) else (str(body) if body is not None else '')
+                status = resp.status
+            except self.web.HTTPException as e:
+                status, text = e.status, ''
+            except Exception as e:
+                status, text = 500, ''
+        finally:
+            self.passthrough = False
+        asked = fs.asked[n0:]
+        bad = [('file-store-read', a) for a in asked if a[1] != self.R]
+        # every marker of the seeded data names its batch: instance names, file-store contents, job-group names, batch_id fields
+        for m in re.finditer(r'(inst|status|log|profile|g)-b(\d+)', text):
+            if int(m.group(2)) != self.R:
+                bad.append(('item-of-batch', int(m.group(2)), text[max(0, m.start() - 40):m.end() + 30]))
+        for m in re.finditer(r'"batch_id":\s*(\d+)', text):
+            if int(m.group(1)) != self.R:
+                bad.append(('row-of-batch', int(m.group(1)), text[max(0, m.start() - 20):m.end() + 60]))
+        res = (status, len(text), asked, bad)
         self._cache[k] = res
         return res
 
@@ -777,7 +873,7 @@ class C14(Prop):
         else:
             for key in ('jobs', 'job_groups'):
                 for r in body.get(key, []):
-                    if r.get('batch_id') != self.A2:
+                    if r.get('batch_id') != self.R:
                         bad.append((key[:-1], r.get('batch_id'), r.get('job_id', r.get('job_group_id'))))
         return bad
 
@@ -789,6 +885,9 @@ class C14(Prop):
             return ['only-permitted-rows' if not bad else f'foreign-rows:{len(bad)}']
         if c['kind'] == 'billing':
             bad = self._billing_foreign(c)
+            return ['only-permitted-rows' if not bad else f'foreign-rows:{len(bad)}']
+        if c['kind'] == 'item':
+            bad = self._item(c)[3]
             return ['only-permitted-rows' if not bad else f'foreign-rows:{len(bad)}']
         if c['kind'] == 'session':
             return [','.join(str(st) for _, st in self._session(c))]
@@ -827,6 +926,12 @@ class C14(Prop):
             if not entered and writes:
                 return f'denied-but-wrote: {method} {path_t} ({r["handler"]}) refused [{who}] but executed {writes[0][:80]!r}'
             return None
+        if c['kind'] == 'item':
+            status, _, asked, bad = self._item(c)
+            if bad:
+                return (f'item leak: GET {c["route"]} (batch {self.R}, job {c.get("job_id")}, job group {c.get("job_group_id")}) as {c["who"]} '
+                        f'answered {status} with items of another batch: {bad[:4]}')
+            return None
         if c['kind'] == 'billing':
             bad = self._billing_foreign(c)
             if bad:
@@ -840,7 +945,7 @@ class C14(Prop):
             bad = self._data_foreign(c)
             if bad:
                 status, _ = self._data(c)
-                return (f'data leak: GET {DATA_ROUTES[c["route"]]} (batch {self.A2}) with q={c["q"]!r} as {c["who"]} answered {status} with rows the caller '
+                return (f'data leak: GET {DATA_ROUTES[c["route"]]} (batch {self.R}) with q={c["q"]!r} as {c["who"]} answered {status} with rows the caller '
                         f'may not read (kind, batch, id / billing project): {bad[:6]}')
             return None
         if c['kind'] == 'session':
@@ -908,6 +1013,9 @@ class C14(Prop):
             tags = ['guard:' + outcome, 'class:' + cls]
             nontrivial = outcome != 'allow' or cls != 'pub'
             return (json.dumps(c, sort_keys=True) if nontrivial else None, tags)
+        if c['kind'] == 'item':
+            status, n, asked, bad = self._item(c)
+            return (json.dumps(c, sort_keys=True) if status == 200 and (n > 2 or asked) else None, [f'item:{status}:{"data" if n > 2 or asked else "empty"}'])
         if c['kind'] == 'billing':
             status, body = self._billing(c)
             return (json.dumps(c, sort_keys=True) if status == 200 else None, [f'billing:{c["route"].split(":")[0]}:{status}'])
